@@ -640,6 +640,14 @@ PROPS = {
         "level": "other",
         "units": ["nsecval"],
         "kani": [],
+        "extra_searches": [
+            {"bin": "c14_search_validator_scenarios", "crate": "replay_sign", "release": True,
+             "what": "the validator through its public API against a generated hierarchy . -> test. -> example.test. (ECDSA P-256, in-memory upstream, "
+                     "NSEC3 chain rebuilt under salts that put each of the seven names at the wrap-around point): 360 answers -- correctly signed answers "
+                     "Secure; a flipped signature bit, a missing signature, a signature by a key outside the DNSKEY RRset never Secure; KSK and ZSK with the "
+                     "same key tag both verify; genuine NXDOMAINs with their three NSEC3 records Secure; an NXDOMAIN for an existing name supported by every "
+                     "NSEC3 of the zone but its own never Secure -- on the real crate (harness written by a round-7 seeding sub-agent)"},
+        ],
         "replays": [
             {"bin": "d55_validator_ttl0_panic", "crate": "replay_sign", "finding": "D55"},
         ],
@@ -664,7 +672,7 @@ PROPS = {
                        "comparison operators written as method calls on models carrying the position in the total order). The validity clock of a cached "
                        "node: Node::ttl (real text, Duration modelled as a number with a panicking `-`) is total however much time has passed and "
                        "never exceeds the validity (this contract pins D55: a DNSKEY RRset served with TTL 0 made the validator panic).",
-        "not_covered": "Soundness of 'secure' (signature chains to a trust anchor, NSEC/NSEC3 proofs), insecure-delegation handling, "
+        "not_covered": "Soundness of 'secure' beyond the 360 scenarios of the native search (signature chains to a trust anchor, NSEC/NSEC3 proofs), insecure-delegation handling, "
                        "every other panic site of the validator (e.g. get_checked_nsec's panic!(\"NSEC expected\"), "
                        "nsec3_hash(..).unwrap()), loops: async code over caches and crypto, out of reach.",
         "assumptions": [
